@@ -446,6 +446,8 @@ def call_by_contract(ex, c: Contract, pos, kw, st: State, site='') -> SV:
             raise Unsupported('no binding for ghost %s of %s' % (g, c.key))
     named_heap(st)
     pre = CCtx(st.h, st.h, args, ghosts)
+    for f in c.defs(pre):
+        st.assume(f)
     tag = 'call%d.%s' % (k, c.short)
     for (nm, f) in c.requires(pre):
         ex.oblige('%s.pre.%s' % (tag, nm), st, f, 'call.pre', 'precondition %s of %s' % (nm, c.key))
